@@ -1215,7 +1215,11 @@ def check_pcm_sync(args):
     the sync word given: minor_frame_size_bytes = distance of the first two sync words - 8 - header; same frames back"""
     kind, align, size, b, fs = args["kind"], args["align"], args["size"], bytes.fromhex(args["buf"]), args["frames"]
     src = ch11.TS_CH4 if kind == "rtc" else ch11.TS_IEEE1558
-    q = pcm.PCMDataPacket(src, args["sync"], None)
+    if args.get("late_sync"):                  # sync word assigned (or changed) after construction: a plain attribute
+        q = pcm.PCMDataPacket(src) if args["late_sync"] == "default" else pcm.PCMDataPacket(src, args["late_sync"], None)
+        q.syncword = args["sync"]
+    else:
+        q = pcm.PCMDataPacket(src, args["sync"], None)
     if args.get("prior"):                      # the same decoder object used before on frames of another size
         q.unpack(bytes.fromhex(args["prior"]))
     q.unpack(b)
@@ -1242,6 +1246,8 @@ def _pcm_sync_cases(ctx):
                         pb, _ = _pcm_sync_packet(rng, kind, align, other, rng.choice((2, 3)))
                         out.append({"kind": kind, "align": align, "size": size, "sync": SYNC, "buf": b.hex(), "frames": fs,
                                     "prior": pb.hex()})
+                        out.append({"kind": kind, "align": align, "size": size, "sync": SYNC, "buf": b.hex(), "frames": fs,
+                                    "late_sync": rng.choice(["default", 0xABABABAB, 0xFE6B2840 ^ 0xFFFFFFFF])})
     return out
 
 def corr_C17(ctx):
